@@ -5,6 +5,8 @@ A case = {"cols": [(thr, [targets], dyn, hint)], "ops": [op, ...]} with op one o
   ("getdefault",t,cs|None) ("getcurrent",t) ("rebuild",) ("flip",c) ("panic",t,[d,...])
   ("emitcb",t,cs,k,cs2)   emission whose receiving collector's callback does k: 0 nothing, 1 panics (caught), 2 emits cs2 re-entrantly,
                           3 emits cs2 then panics  (model: Dispatch/Reentry.v, C02 only)
+  ("exit",t,d,cs)         thread t exits: its guards are dropped innermost-first, then two thread-local destructors each do
+                          `with_default(&d, || emit cs)` — one while tracing-core's thread-local is alive, one after it is destroyed (C02 only)
 Encodings are those of coq/theories/Dispatch/Model.v and harness/dispatch/src/bin/h_dispatch.rs:
 dispatcher d: 0 = Dispatch::none(), c+1 = collector c; interest 0/1/2; level / filter rank 0..5 (0 = OFF).
 """
@@ -131,6 +133,16 @@ def expand(ops):
                 pos.append(len(out))
                 out.append(("close", t, 0))
             idx.append(pos)
+        elif o[0] == "exit":
+            # get_current (registers CURRENT_STATE), LIFO drop of every guard the thread may still hold (surplus closes are refused
+            # no-ops in the model), the destructor that runs while the thread-local is alive (an ordinary scope), and the one after
+            t, dd, cs = o[1], o[2], o[3]
+            k = sum(1 for q in out if q[0] == "open" and q[1] == t)
+            pos = []
+            for q in [("getcurrent", t)] + [("close", t, 0)] * k + [("open", t, dd), ("emit", t, cs), ("close", t, 0), ("deadscope", t, cs)]:
+                pos.append(len(out))
+                out.append(q)
+            idx.append(pos)
         else:
             idx.append([len(out)])
             out.append(o)
@@ -165,6 +177,8 @@ def coq_op(pool, o):
 
 
 def coq_xop(pool, o):
+    if o[0] == "deadscope":
+        return "XDeadScope %d %s" % (o[1], coq_cs(pool, o[2]))
     if o[0] == "emitcb":
         return "XEmitCb %d %s (mk_cb %d %s)" % (o[1], coq_cs(pool, o[2]), o[3], coq_cs(pool, o[4]))
     return "XBase (%s)" % coq_op(pool, o)
@@ -261,7 +275,12 @@ def expected_from_model(pool, case, mrun):
         last = rows[-1]
         e = {"k": k, "max": last[-1], "del": [], "bad": 0}
         head = rows[0]
-        if k == "panic":
+        if k == "exit":
+            p = pool[o[3]]
+            for r in rows:
+                if r[0] == 4 and r[2] > 0:
+                    e["del"].append([r[2] - 1, KIND_NUM[p["kind"]], p["lvl"], p["tgt"]])
+        elif k == "panic":
             if any(r[0] == 2 for r in rows[:len(o[2])]):
                 # an inexpressible dispatcher: the harness refuses the whole op; the model must not have moved either
                 e["bad"] = 1
